@@ -189,3 +189,85 @@ func TestGovcReplayReceiverCleanup(t *testing.T) {
 	}
 	fmt.Println("REPLAY-OK the old incarnation's clean-up left the successor's registrations alone")
 }
+
+// ---- D8 (intra-proxy sender): the clean-up of an old intra-proxy sender incarnation removes its successor ----
+
+type govcBlockingServerStream struct {
+	grpc.ServerStream
+	ctx context.Context
+}
+
+func (s *govcBlockingServerStream) Send(*adminservice.StreamWorkflowReplicationMessagesResponse) error {
+	return nil
+}
+func (s *govcBlockingServerStream) Recv() (*adminservice.StreamWorkflowReplicationMessagesRequest, error) {
+	<-s.ctx.Done() // like a real gRPC server stream: ends when the peer goes away
+	return nil, s.ctx.Err()
+}
+func (s *govcBlockingServerStream) Context() context.Context { return s.ctx }
+
+func govcIntraSenderSuccessorLosesRegistration() string {
+	memberlistCfg := &config.MemberlistConfig{Enabled: true, NodeName: "n1", BindAddr: "127.0.0.1", BindPort: 0}
+	smI := NewShardManager(memberlistCfg, config.ShardCountConfig{Mode: config.ShardCountRouting}, encryption.TLSConfig{}, govcRegLoggers{})
+	sm := smI.(*shardManagerImpl) // memberlist is never started: only the registries are used
+	mgr := sm.GetIntraProxyManager()
+	if mgr == nil {
+		return ""
+	}
+	src := history.ClusterShardID{ClusterID: 1, ShardID: 1}
+	tgt := history.ClusterShardID{ClusterID: 2, ShardID: 1}
+	key := peerStreamKey{targetShard: tgt, sourceShard: src}
+	mk := func() *intraProxyStreamSender {
+		return &intraProxyStreamSender{logger: log.NewNoopLogger(), shardManager: smI, peerNodeName: "peer", sourceShardID: src, targetShardID: tgt}
+	}
+	registered := func() *intraProxyStreamSender {
+		mgr.streamsMu.RLock()
+		defer mgr.streamsMu.RUnlock()
+		if ps := mgr.peers["peer"]; ps != nil {
+			return ps.senders[key]
+		}
+		return nil
+	}
+	wait := func(cond func() bool) bool {
+		deadline := time.Now().Add(5 * time.Second)
+		for time.Now().Before(deadline) {
+			if cond() {
+				return true
+			}
+			time.Sleep(time.Millisecond)
+		}
+		return false
+	}
+	a, b := mk(), mk()
+	ctxA, cancelA := context.WithCancel(context.Background())
+	ctxB, cancelB := context.WithCancel(context.Background())
+	defer cancelB()
+	aDone := make(chan struct{})
+	go func() { _ = a.Run(&govcBlockingServerStream{ctx: ctxA}, channel.NewShutdownOnce()); close(aDone) }()
+	if !wait(func() bool { return registered() == a }) {
+		return ""
+	}
+	// the peer re-establishes the stream: a second incarnation registers while the first is still going away
+	go func() { _ = b.Run(&govcBlockingServerStream{ctx: ctxB}, channel.NewShutdownOnce()) }()
+	if !wait(func() bool { return registered() == b }) {
+		return ""
+	}
+	cancelA() // the old stream finally ends: its deferred clean-up runs
+	select {
+	case <-aDone:
+	case <-time.After(5 * time.Second):
+		return ""
+	}
+	if cur := registered(); cur != b {
+		return fmt.Sprintf("the new intra-proxy sender incarnation is live, but after the OLD incarnation's deferred UnregisterSender ran no sender is registered for the peer/shard pair any more (registered=%v): messages for the peer are reported undeliverable", cur != nil)
+	}
+	return ""
+}
+
+func TestGovcReplayIntraSenderCleanup(t *testing.T) {
+	if m := govcIntraSenderSuccessorLosesRegistration(); m != "" {
+		fmt.Println("REPLAY-VIOLATION", m)
+		return
+	}
+	fmt.Println("REPLAY-OK the old incarnation's clean-up left the successor's registration alone")
+}
